@@ -66,6 +66,21 @@ void clr_cb(void *ptr, void *priv)
 // shared pointers take no priv: what their clear callback receives there is not documented, so it is not compared
 void clr_cb_sh(void *ptr, void *) { clr_cb(ptr, nullptr); }
 
+// a clear function may itself use the library on the dying allocation: the classic case is a child object holding a weak
+// back-reference to its parent, reset from the parent's clear function. g_inner_weak: managed block -> the pool's weak
+// pointer that this block's clear function resets (if that weak pointer still refers to it).
+std::unordered_map<void *, int> g_inner_weak, g_cb_reset;      // (g_cb_reset: decided by the model when it predicts the destruction)
+void clr_cb_sh_reenter(void *ptr, void *)
+{
+    clr_cb(ptr, nullptr);
+    auto it = g_cb_reset.find(ptr);
+    if (it != g_cb_reset.end()) {
+        int k = it->second;
+        g_cb_reset.erase(it);
+        cstl_weak_ptr_reset(&WP[k]);       // library call from within the clear function
+    }
+}
+
 void begin_op()
 {
     g_pred.clear();
@@ -100,6 +115,15 @@ std::string evstr(const std::vector<Ev> &v)
 const char *PFX() { return g_prop == "C16" ? "C16.mem" : "C05"; }
 #define CL(name) (std::string(PFX()) + "." name).c_str()
 
+bool inner_weak_applies(int ai, int *k)
+{
+    auto it = g_inner_weak.find(A[ai].ptr);
+    if (it == g_inner_weak.end()) return false;
+    int w = it->second;
+    if (wk[w] != ai) return false;      // (by allocation, not by address: a freed address may be in use again)
+    *k = w;
+    return true;
+}
 // predicted events of dropping one owning reference / one weak reference
 void pred_drop_owner(int ai, int who)
 {
@@ -110,6 +134,15 @@ void pred_drop_owner(int ai, int who)
         g_pred.push_back({'f', a.ptr, 0});
         a.destroyed = true;
         CNT("class.destroy.last_owner");
+        int k;
+        if (a.has_clr && inner_weak_applies(ai, &k)) {
+            // its clear function resets that weak pointer while the destruction is in progress
+            a.weaks.erase(k);
+            wk[k] = -1;
+            g_cb_reset[a.ptr] = k;
+            CNT("class.destroy.clear_function_resets_a_weak_pointer");
+        }
+        g_inner_weak.erase(a.ptr);      // (the address may be handed out again)
     }
     if (a.owners.empty() && a.weaks.empty() && !a.book_freed) {
         g_pred.push_back({'f', a.book, 0});
@@ -259,7 +292,8 @@ void apply(int op, uint8_t a, uint8_t b, int ns, int nw, int nu)
             break;
         }
         size_t pre = g_pred.size();
-        LIB(cstl_shared_ptr_alloc(&SP[i], sz, clr ? clr_cb_sh : nullptr));
+        const bool reenter = clr && (b & 8);
+        LIB(cstl_shared_ptr_alloc(&SP[i], sz, clr ? (reenter ? clr_cb_sh_reenter : clr_cb_sh) : nullptr));
         // what the allocator did decides the outcome (faults / limit): read it from the log
         std::vector<Ev> o = observed();
         // the bookkeeping block is the request below 1000 bytes, the managed block the one of sz bytes (any order)
@@ -295,6 +329,18 @@ void apply(int op, uint8_t a, uint8_t b, int ns, int nw, int nu)
         if (occupied && destroyed_after > destroyed_before) cx.retarget_destroys = true;
         compare_events("shared_alloc");
         if (sh[i] >= 0) { void *g; LIB(g = cstl_shared_ptr_get(&SP[i])); if (g) memset(g, 0xA5, sz); }
+        if (sh[i] >= 0 && reenter) {
+            int k = (b >> 5) % nw;
+            if (wk[k] < 0) {
+                begin_op();
+                LIB(cstl_weak_ptr_from(&WP[k], &SP[i]));
+                wk[k] = sh[i];
+                A[sh[i]].weaks.insert(k);
+                g_inner_weak[A[sh[i]].ptr] = k;
+                TRACE("W%d from S%d: the back-reference this allocation's clear function resets", k, i);
+                compare_events("weak_from");
+            }
+        }
         break;
     }
     case S_SHARE: {
@@ -357,6 +403,7 @@ void apply(int op, uint8_t a, uint8_t b, int ns, int nw, int nu)
             // "reset prior", lock does not): either the memory is destroyed and the owner ends up empty, or
             // nothing at all changes. The outcome decides which of the two predictions applies.
             CNT("class.lock.into_sole_owner");
+            g_inner_weak.erase(A[sh[s]].ptr);       // (the outcome is only known after the call: no callback re-entry in this corner)
             LIB(cstl_weak_ptr_lock(&WP[w], &SP[s]));
             void *g;
             LIB(g = cstl_shared_ptr_get(&SP[s]));
@@ -539,6 +586,8 @@ void vf_run(const uint8_t *data, size_t len)
     memset(&cx, 0, sizeof cx);
     A.clear();
     UA.clear();
+    g_inner_weak.clear();
+    g_cb_reset.clear();
     bulk_n = 0;
     bulk_ai = -1;
     g_allow_huge_bulk = !g_want_state && (len > 4 && data[3] >= 128);   // header bit: scale run
